@@ -126,6 +126,8 @@ class Builder(object):
             return FiniteSet(*[int(q(v)) for v in d['q'][0]])
         if cls == 'IntervalProd':
             mn, mx = [qf(v) for v in d['q'][0]], [qf(v) for v in d['q'][1]]
+            if d['s'] == 'negzero':                             # zero end points are negative zeros (equal to +0.0)
+                mn, mx = [(-0.0 if t == 0 else t) for t in mn], [(-0.0 if t == 0 else t) for t in mx]
             if copy == 2 and len(mn) == 1:
                 return odl.IntervalProd(mn[0], mx[0])          # scalar form
             return odl.IntervalProd(mn, mx)
@@ -159,6 +161,9 @@ class Builder(object):
         if cls == 'FiniteSet':
             el = [int(q(v)) for v in d['q'][0]]
             return FiniteSet(*(el[::-1] + el[:1]))
+        if cls == 'IntervalProd' and d['s'] == 'negzero':
+            z = lambda vs: np.array([(-0.0 if qf(v) == 0 else qf(v)) for v in vs], dtype=float)
+            return odl.IntervalProd(z(d['q'][0]), tuple(z(d['q'][1]).tolist()))
         if cls == 'IntervalProd':
             conv = lambda v: int(v[0]) if v[1] == 1 else qf(v)           # ints where possible
             return odl.IntervalProd(tuple(conv(v) for v in d['q'][0]), np.array([qf(v) for v in d['q'][1]]))
